@@ -499,6 +499,11 @@ func decomposable(t types.Type) *types.Struct {
 }
 
 func (ev *Evaluator) load(st *State, addr *T, typ types.Type) *T {
+	if addr == nil {
+		// a rule asked for a field the analysed tree does not have in that shape: an undefined value, which no
+		// expectation matches (the rule reports what it could not establish)
+		return ev.TS.intern(&T{Op: "undef", Aux: "no-address", Typ: typ})
+	}
 	if v, ok := st.cells[addr]; ok {
 		return v
 	}
@@ -2186,10 +2191,17 @@ func (ev *Evaluator) doCall(st *State, fr *Frame, c *ssa.CallCommon, instr ssa.I
 			callerTop = callerTop.Parent()
 		}
 		if !inline && !ev.Cfg.NoSamePkgInline && !c.IsInvoke() && e.FnTerm == nil && callee.Parent() == nil && callee.Pkg != nil && callee.Pkg != ev.rootPkg &&
-			callee.Pkg != callerTop.Pkg && callee.Object() != nil && callee.Object().Exported() &&
 			ev.P.InScope[callee] && !ev.Cfg.Opaque[canonName(callee)] && !ev.isProtocol(callee) {
 			if _, known := refParamNames(ev.P.CanonFuncName(callee)); !known {
-				inline = true
+				switch {
+				case callee.Pkg != callerTop.Pkg && callee.Object() != nil && callee.Object().Exported():
+					inline = true
+				case callee.Pkg == callerTop.Pkg && ev.P.InScope[callerTop]:
+					// … and so are the new helpers such a helper is itself built from (CancellableCopy → Internal)
+					if _, callerKnown := refParamNames(ev.P.CanonFuncName(callerTop)); !callerKnown {
+						inline = true
+					}
+				}
 			}
 		}
 		// a call bound through a collaborator seam is the adapter the restructuring introduced: part of the caller
